@@ -25,6 +25,11 @@ CHECKS = {
    technique="explicit-state model checking of the real push/pull/rekey code with stateright (BFS/DFS over all action histories up to a depth bound) in lockstep with libsodium, plus exhaustive length/AD/tag product sweep",
    text="Every history over a ~31-action protocol alphabet (push with 2 lengths x AD x 4 tags, one- and two-sided rekeys, in-order delivery, 12 kinds of out-of-position/forged delivery) from 12 initial states (incl. counters at 0xfffffffe/0xffffffff) is executed on the real code up to depth 6 (quick) / deepest bound completed (thorough); every transition compares ciphertext bytes, both raw states and accept/reject verdict with libsodium and with a pre-state reference model; then every (state class, mlen, adlen, tag byte) cell is pushed and pulled once.",
    note="Trusted: libsodium 1.0.18 as reference; hook H1 installs raw (key, nonce) states; histories beyond the depth bound and byte values outside the alphabets are not covered."),
+ "C04": dict(
+   engine="E-prod + O-total (mc/src/c04.rs): child processes, catch_unwind, counting allocator", cat="exploration", ref="DESIGN.md §3 C04",
+   technique="bounded exhaustive enumeration of untrusted inputs by length and structural class for every consumer (every length x 5 content classes, every stream tag byte, a full grammar product of password-hash strings plus structural mutants), each call executed in a child process under catch_unwind with a counting allocator",
+   text="34 byte-string consumers x every length up to 2x overhead + 64 (+256) x 5 classes; 256 tag bytes x 3 lengths x 4 pull forms; ~243k password-hash strings; oracle: returns Ok or Err, no unwind/abort/signal, no single allocation above 16 MiB + 8x input.",
+   note="Contents within a length are represented by five classes; overflow checks are enabled in the harness build so wrapped arithmetic panics."),
  "C05": dict(
    engine="E-prod bounded product enumerator (mc/src/c05.rs)", cat="exploration", ref="DESIGN.md §3 C05",
    technique="bounded exhaustive enumeration: full product of a structured scalar alphabet x a structured point-encoding alphabet (complete integer intervals around every boundary, complete low-order table), each cell through dryoc and libsodium X25519; plus all ordered honest pairs for DH/kx",
@@ -80,11 +85,26 @@ CHECKS = {
    technique="exhaustive history-replay exploration of container operation sequences with an allocator release observer: every released allocation is read in full immediately before free() and must be all zero",
    text="All histories up to length 5 (quick) / 6 (thorough) over constructors (incl. raw heap containers), write, resize up/down (forcing reallocation, truncation, spare capacity), clone, lock/protect transitions and drop; at each of the release events the whole allocation incl. spare capacity is checked for non-zero bytes and alloc/release counts must balance.",
    note="Trusted: hook H2 reports every deallocation of the page-aligned allocator right before free(); stack and Vec<u8> containers are outside the statement."),
+ "C16": dict(
+   engine="E-prod (mc/src/c16.rs, nightly build so heap/locked containers are included)", cat="exploration", ref="DESIGN.md §3 C16",
+   technique="bounded exhaustive enumeration: every object kind x payload length x container x codec round-trips and equals libsodium's layout; for every fixed-length container type every element count 0..=2N through 5 decoders and TryFrom must be refused unless exactly N",
+   text="4 message objects x lengths 0..=80 (300) x 6 codecs; 7 key objects x 5 keys x 2 codecs; 7 fixed-length types x counts 0..=2N x 5 decoders; heap/locked containers x lengths x 5 decoders.",
+   note="Vec<u8> used as a fixed-length field type cannot enforce lengths at decode time (observation, not alarmed)."),
+ "C18": dict(
+   engine="E-conf configuration matrix (mc/src/probe.rs built 3x, conf/c18.py)", cat="exploration", ref="DESIGN.md §3 C18",
+   technique="bounded exhaustive enumeration of a shared corpus executed under every build configuration (stable default, nightly, nightly+simd_backend) with transcript equality for all pairs; container leg compares stack/Vec/heap/locked results inside the nightly builds",
+   text="8 corpus sections (~0.68 M cases quick) x 3 configurations; section digests by libsodium SHA-512; first differing case reported on mismatch.",
+   note="Third-party CPU-specific back-ends are not part of the configuration set."),
  "C19": dict(
    engine="E-fault (mlock refusal by in-process interposer) on the E-state explorer (mc/src/pm.rs, nightly build)", cat="fault_enumeration", ref="DESIGN.md §3 C19",
    technique="exhaustive single-point fault enumeration over environment answers: every history up to the depth bound is re-executed for every k with the k-th and all later mlock calls refused; Result-returning calls must return Err, survivors keep the C14 kernel invariant, drop keeps the C14 final and C15 release conditions",
    text="Every (history, k) pair for histories of length <= 4 (quick) / 5 (thorough): refusal is injected by defining the mlock symbol in the harness binary; panics are caught and attributed to the operation; kernel view and release observer checked as in C14/C15.",
    note="Trusted: the interposed mlock is the only lock entry point dryoc uses on Linux; only mlock is refused."),
+ "C20": dict(
+   engine="E-prog program-table checker (typestate/check.py)", cat="model_checking", ref="DESIGN.md §3 C20",
+   technique="model checking of a permission table (type-state x operation) against the compiler: one generated program per cell, exhaustive over the table; must-reject cells must fail with a capability-class rustc error, must-accept cells must compile and run in a forked child without faulting",
+   text="2 containers x 5 type-states x 21 operations + use-after/use-result for each consuming transition + 8 stream cells = 283 programs; rustc (nightly) verdict and error class per program; 170 permitted programs executed.",
+   note="Trusted: rustc as oracle; the table is written from the statement."),
 }
 
 def main():
